@@ -756,7 +756,7 @@ def gen_C07(rng, tier):
             elif k < 0.6:
                 h.ops.append("%s %s %s" % (rng.choice(["add", "sub", "mult", "mult"]), a, b))
             elif k < 0.75:
-                r = h.newu(); h.ops.append("%s=pow %s %d" % (r, a, rng.choice([0, 1, 2, 3, 5, 8, 13]))); ps.append(r)
+                r = h.newu(); h.ops.append("%s=pow %s %d" % (r, a, rng.choice([0, 1, 2, 3, 5, 8, 13, 2 ** 31, 2 ** 62, 2 ** 63 - 1, 2 ** 63, 2 ** 63 + 1, 2 ** 64 - 2, 2 ** 64 - 1]))); ps.append(r)
             elif k < 0.85:
                 r = h.newu(); h.ops.append("%s=scale %s %s" % (r, a, rng.choice(es))); ps.append(r)
             elif k < 0.95:
@@ -1564,9 +1564,53 @@ def gen_setvar(rng, n):
     return L
 
 
+def long_chain_cases(rng, n):
+    """an error must keep its kind through arbitrarily long chains of operations (every operation wraps it once more)"""
+    L = []
+    for _ in range(n):
+        desc = pick_field(rng, small=0.8, mid=0.2)
+        h = H(rng, desc, bspec=bspec(rng), snap=False)
+        z = h.elem("0"); g = h.elem()
+        bad = h.newe(); h.ops.append("%s=inv %s" % (bad, z))
+        for _ in range(rng.choice([63, 64, 65, 70, 130])):
+            k = rng.random()
+            if k < 0.5:
+                h.ops.append("%s %s %s" % (rng.choice(["add", "sub", "mult"]), bad, g))
+            elif k < 0.7:
+                h.ops.append("setneg %s" % bad)
+            else:
+                nb = h.newe(); h.ops.append("%s=%s %s %s" % (nb, rng.choice(["plus", "times", "minus"]), bad, g)); bad = nb
+        h.ops.append("show %s" % bad)
+        f0 = h.upoly(deg=2, ring=0); g2 = h.upoly(deg=2, ring=2)
+        bp = h.newu(); h.ops.append("%s=plus %s %s" % (bp, f0, g2))
+        for _ in range(rng.choice([64, 66, 100])):
+            k = rng.random()
+            if k < 0.6:
+                h.ops.append("%s %s %s" % (rng.choice(["add", "sub", "mult"]), bp, f0))
+            else:
+                nb = h.newu(); h.ops.append("%s=%s %s %s" % (nb, rng.choice(["plus", "times", "minus"]), bp, f0)); bp = nb
+        h.ops.append("obs %s" % bp)
+        # a bivariate power whose repeated squarings overflow again and again
+        q0 = h.newb(); h.ops.append("%s=map@0 %d:0:1" % (q0, 2 ** 63))
+        for n_ in (2, 3, 2 ** 63, 2 ** 64 - 1):
+            r = h.newb(); h.ops.append("%s=pow %s %d" % (r, q0, n_)); h.ops.append("obs %s" % r)
+        # an argument that carries an Overflow error AND belongs to another ring: its own kind is reported
+        q2 = h.newb(); h.ops.append("%s=map@2 %d:1:1/0:0:1" % (q2, 2 ** 63))
+        ov = h.newb(); h.ops.append("%s=times %s %s" % (ov, q2, q2))
+        q1 = h.bpoly(nterms=2, box=3, ring=0)
+        for op in ("plus", "minus", "times"):
+            h.ops.append("%s=%s %s %s" % (h.newb(), op, q1, ov))
+        c = h.newb(); h.ops.append("%s=copy %s" % (c, q1)); h.ops.append("%s %s %s" % (rng.choice(["add", "sub", "mult"]), c, ov)); h.ops.append("obs %s" % c)
+        h.ops.append("%s,%s=quorem %s %s" % (h.newb(), h.newb(), q1, ov))
+        h.ops.append("%s=rem %s %s" % (h.newb(), q1, ov))
+        L.append(h.line())
+    return L
+
+
 def gen_C17(rng, tier):
     L = []
     big = tier == "thorough"
+    L += long_chain_cases(rng, 60 if big else 15)
     L += gen_setvar(rng, 400 if big else 80)
     L += overflow_cases(rng, 80 if big else 20)
     # (a) invalid requests and sticky chains, snapshot after every op
